@@ -164,7 +164,9 @@ HUGE_USES = [".word 1 << hh", ".word 1 >> hh", ".word 1 _ hh", ".word hh << 1", 
              ".word -hh", ".word hh * hh & 1", ".word hh - hh", ".word hh + 1 - hh", "mov #hh, r0", "mov hh, r0", "mov hh(r1), r0", "clr @#hh", "br hh", "sob r0, hh", "emt hh", "trap hh",
              "mark hh", "spl hh", ".ascii <hh>", ".rad50 <hh>", ".link hh", ". = hh", ".link 1000\nnop\n. = hh", "x = hh\n.word x & 1", ".word <hh>", ".word (hh)", "mov #hh - hh + 5, r0",
              ".blkb hh - hh + 2", ".repeat hh - hh + 2 { nop }", ".align hh", ".blkb hh", ".blkw hh", ".repeat hh { nop }", ". = . + hh", ".even\n.word hh * 0", "make_wav \"t.wav\", <hh>",
-             ".include <hh>", ".error hh", "ldf #hh, ac0", "mul #hh, r1", "clr %hh", "mov (%hh), r0"]
+             ".include <hh>", ".error hh", "ldf #hh, ac0", "mul #hh, r1", "clr %hh", "mov (%hh), r0",
+             # a skip between the labels of a link expression in which the base cancels (its length is taken symbolically)
+             ".link 1000 + e7 - s7\ns7: . = . + hh\ne7: nop", ".link 1000 + e7 - s7\ns7: nop\n. = s7 + hh\ne7: nop", ".link 1000\n.blkb e7 - s7\ns7: . = . + hh\ne7: nop"]
 # uses whose work is proportional to the value: only with the moderate values (resource guard, see ASSUMPTIONS)
 HUGE_SIZE_USES = {".blkb hh", ".blkw hh", ".repeat hh { nop }", ". = . + hh", ". = hh", ".link 1000\nnop\n. = hh"}
 
